@@ -120,6 +120,30 @@ namespace chaiscript {
           , children(std::move(t_children)) {
       }
 
+      AST_Node_Impl(AST_Node_Impl &&) = default;
+
+      /// A chain of operators (a && a && ... or 1 + 1 + ...) is parsed by a loop into a tree that is as deep as the
+      /// chain is long; take the tree apart iteratively so that releasing it does not recurse once per level.
+      ~AST_Node_Impl() noexcept override {
+        try {
+          std::vector<AST_Node_Impl_Ptr<T>> pending(std::move(children));
+          children.clear();
+          while (!pending.empty()) {
+            auto node = std::move(pending.back());
+            pending.pop_back();
+            if (node) {
+              pending.reserve(pending.size() + node->children.size());
+              for (auto &child : node->children) {
+                pending.push_back(std::move(child));
+              }
+              node->children.clear();
+            }
+          }
+        } catch (const std::bad_alloc &) {
+          // out of memory for the work list: whatever is left is released the ordinary, recursive way
+        }
+      }
+
       static bool get_scoped_bool_condition(const AST_Node_Impl<T> &node, const chaiscript::detail::Dispatch_State &t_ss) {
         chaiscript::eval::detail::Scope_Push_Pop spp(t_ss);
         return get_bool_condition(node.eval(t_ss), t_ss);
